@@ -105,6 +105,54 @@ def check_box(s1, s2, m0, m1, m2, m3):
     return fails
 
 
+KW_ORDERS = [("m0", "m1", "m2", "m3", "sigma1", "sigma2", "sigma3"), ("sigma3", "sigma2", "sigma1", "m3", "m2", "m1", "m0"),
+             ("m2", "sigma1", "m0", "sigma3", "m3", "sigma2", "m1")]
+
+
+def check_keywords(s1, s2, m0, m1, m2, m3, order):
+    """The expression classes built through keywords in any order are the positionally built ones."""
+    fails = []
+    s3 = compute_third_mandelstam(s1, s2, m0, m1, m2, m3)
+    vals = {"sigma1": s1, "sigma2": s2, "sigma3": s3, "m0": m0, "m1": m1, "m2": m2, "m3": m3}
+    ref = sp.expand(Kibble(s1, s2, s3, m0, m1, m2, m3).doit())
+    kw = sp.expand(Kibble(**{k: vals[k] for k in KW_ORDERS[order]}).doit())
+    if kw != ref:
+        fails.append(("kibble_keyword_order", f"Kibble(**{{{', '.join(KW_ORDERS[order])}}}) = {kw}, positional {ref}"))
+    mixed = sp.expand(Kibble(s1, s2, s3, m2=m2, m0=m0, m3=m3, m1=m1).doit())
+    if mixed != ref:
+        fails.append(("kibble_keyword_order", f"Kibble(s1,s2,s3,m2=,m0=,m3=,m1=) = {mixed}, positional {ref}"))
+    if sp.expand(Kallen(z=m1, x=s1, y=s2).doit()) != sp.expand(Kallen(s1, s2, m1).doit()):
+        fails.append(("kallen_keyword_order", "Kallen(z=,x=,y=) differs from Kallen(x,y,z)"))
+    return fails
+
+
+def check_cached(s1, s2, m0, m1, m2, m3, outs):
+    """The indicator unfolded through the library's disk cache (perform_cached_doit), one outside value after the other
+    in ONE cache directory, with the hash-seed mode of this process: each returns the caller's own outside value."""
+    import shutil
+    import tempfile
+
+    from ampform.sympy import perform_cached_doit
+
+    fails = []
+    d = tempfile.mkdtemp(prefix="c20cache_")
+    try:
+        lo, hi = pdg_limits(s1, m0, m1, m2, m3)
+        inside = bool(sp.N(lo, 50) <= s2 <= sp.N(hi, 50))
+        sy = sp.symbols("a b c d e f")
+        for o in outs:
+            ov = sp.sympify(o)
+            folded = is_within_phasespace(*sy, outside_value=ov)
+            got = perform_cached_doit(folded, d).xreplace(dict(zip(sy, (s1, s2, m0, m1, m2, m3))))
+            want = 1 if inside else ov
+            if not (got == want or sp.simplify(got - want) == 0):  # == first: nan is structurally equal to itself
+                fails.append(("indicator_cached_doit", f"outside_value={o} after {outs[:outs.index(o)]} in one cache directory: "
+                              f"indicator = {got}, expected {want}"))
+    finally:
+        shutil.rmtree(d, ignore_errors=True)
+    return fails
+
+
 def gen_cases(seed, n):
     rng = random.Random(seed)
     cases = []
@@ -158,6 +206,12 @@ def gen_cases(seed, n):
             if s1 <= 0:
                 continue
             cases.append({"kind": "box", "s1": str(s1), "s2": str(s2), "m": [str(v) for v in (m0, m1, m2, m3)]})
+            if i % 9 == 2:
+                cases.append({"kind": "keywords", "s1": str(s1), "s2": str(s2), "m": [str(v) for v in (m0, m1, m2, m3)],
+                              "order": rng.randrange(3)})
+            if i % 30 == 5:
+                cases.append({"kind": "cached", "s1": str(s1), "s2": str(s2), "m": [str(v) for v in (m0, m1, m2, m3)],
+                              "outs": rng.choice([["-1", "-2"], ["-2", "-1"], ["-1.0", "-2.0", "0"], ["nan", "-1", "-2"], ["0", "0.0"]])})
     return cases
 
 
@@ -167,6 +221,10 @@ def run_case(c):
         return check_kallen(*(S(c[k]) for k in "xyzab"))
     if c["kind"] == "event":
         return check_event([S(e) for e in c["E"]], [S(v) for v in c["P2"]], [S(v) for v in c["P3"]])
+    if c["kind"] == "keywords":
+        return check_keywords(S(c["s1"]), S(c["s2"]), *[S(v) for v in c["m"]], c["order"])
+    if c["kind"] == "cached":
+        return check_cached(S(c["s1"]), S(c["s2"]), *[S(v) for v in c["m"]], c["outs"])
     if c["kind"] == "box":
         return check_box(S(c["s1"]), S(c["s2"]), *[S(v) for v in c["m"]])
     raise ValueError(c)
@@ -199,7 +257,9 @@ def main():
             samples.append(c)
         for sig, what in fails:
             failures.append({"signature": sig, "what": what, "case": c})
-    print(json.dumps({"evaluations": len(cases), "distinct": nontrivial, "samples": samples,
+        if len(failures) >= 20:  # enough to report; do not spend the failing-input search budget on more
+            break
+    print(json.dumps({"evaluations": sum(kinds.values()), "distinct": nontrivial, "samples": samples,
                       "kinds": kinds, "failures": failures[:20]}))
 
 
